@@ -101,9 +101,9 @@ def ifft(data, shift=True):
     """
     data_np = data.values if isinstance(data, xr.DataArray) else data
     if data_np.ndim == 1:
-        res = np.fft.ifft(data_np)
         if shift:
-            res = np.fft.fftshift(data_np)
+            data_np = np.fft.ifftshift(data_np)
+        res = np.fft.ifft(data_np)
     else:
         if shift:
             shifted = np.fft.ifftshift(
